@@ -126,6 +126,12 @@ func ReadFromSRT(i io.Reader) (o *Subtitles, err error) {
 			}
 		}
 	}
+
+	// Reading may have failed (read error, line too long)
+	if err = scanner.Err(); err != nil {
+		err = fmt.Errorf("astisub: scanning failed: %w", err)
+		return
+	}
 	return
 }
 
